@@ -70,6 +70,35 @@ PROPS = {
             "not covered: String / Bytes payloads, ValueTuple, JSON key order, vectors, nested arrays (heap / optional features)"],
         "design_ref": "DESIGN.md section 4.11",
     },
+    "C01": {
+        "kind": "verus",
+        "units": [{"name": "writer"}],
+        "search": True,
+        "technique": "Verus contracts: SqlWriterValues as a data structure with abstraction relation rel(writer, trace); every operation extends the trace; closed-form lemma for numbering / pairing; clause renderers as trace transformers",
+        "trusted_base": TB_COMMON + [TB_FMT,
+            "R-dyn: `&mut dyn SqlWriter` / `&dyn QueryBuilder` replaced by generic parameters; both SqlWriter impls are verified against one trait contract",
+            "R-fields: statement structs are projected on the fields the extracted functions read",
+            "Value is opaque in this unit; #[derive(Clone)] on Value is a structural copy (trusted)",
+            "Display of usize is left uninterpreted (num_text_int): the k-th Postgres placeholder is `$` ++ decimal(k) by the std formatter"],
+        "assumptions": [
+            "ASSUMED (assume() in the verified file): SqlWriterValues.counter < usize::MAX when a parameter is pushed - a Vec<Value> cannot hold usize::MAX elements",
+            "frame: counter / values / string are private fields of src/prepare.rs and only new / write_str / push_param / into_parts touch them (checked syntactically on every run)",
+            "statement renderers (prepare_select_statement ...) are abstract trace transformers here: that they emit every given value (beyond LIMIT / OFFSET, proved here) is the subject of C08's unit; text segments are assumed lexically closed and free of placeholder marks outside quotes (custom SQL with a literal mark is C11)",
+        ],
+    },
+    "C02": {
+        "kind": "verus",
+        "units": [{"name": "writer"}],
+        "search": True,
+        "technique": "Verus contracts: String and SqlWriterValues refine one trace (same trait contract); to_string / build / build_any / build_collect* and both #[inherent] forwards of each statement type are proved to run the same renderer; lemma: inline == parameterised with placeholders substituted",
+        "trusted_base": TB_COMMON + [TB_FMT,
+            "R-dyn: dyn parameters replaced by generics", "R-inherent: #[inherent] re-exports trait methods as inherent methods without changing them",
+            "ToString: `to_string()` of a String is itself; Display for SqlWriterValues writes its text (external_body)"],
+        "assumptions": [
+            "the renderer is a function of (&statement, &builder) only: it reaches the writer only through the SqlWriter interface (generic W) and &self statements have no interior mutability, so rendering cannot modify the statement and rendering twice gives the same result",
+            "`on a live engine they return the same rows` is outside this family (no engine semantics in any contract) and is not claimed",
+        ],
+    },
     "C17": {
         "kind": "verus",
         "units": [{"name": "escape"}],
@@ -99,6 +128,8 @@ PROPS = {
 }
 
 LEVEL_TEXT = {
+    "C01": "Unbounded proof over all operation sequences: the writer invariant (counter == values.len(), text == rendering of the trace) is preserved by every operation of the extracted SqlWriterValues; lemma_c01_closed_form: placeholder segments carry numbers 1..n once each, ascending, paired with values[k-1]; `?` vs `$k` per backend from the extracted placeholder(); prepare_value x4 push exactly one value; LIMIT/OFFSET renderers push their values in order.",
+    "C02": "Unbounded proof: both writers satisfy one trait contract, so for any renderer the inline text is render_inline(T) and the parameterised result is (render_ph(T), params(T)) for the same trace T; lemma_c02_same_statement relates the two; all eight public entry points and the ten #[inherent] forwards are extracted and proved to call the same renderer with the same arguments.",
     "C12": "Complete proof (CBMC, no unwinding bound needed or unwinding assertions on) for every value of the scalar types, their Options, every variant/type mismatch and the listed tuple arities; heap-payload checks are bounded stand-ins, labelled and not counted.",
     "C18": "Complete proof (CBMC) over all scalar variants and all float bit patterns that == is an equivalence relation separating variants and that equal values feed identical bytes to any Hasher.",
     "C20": "Type-level proof for all values: the contract `where T: Send + Sync` is instantiated at every nameable non-generic public type of the crate (built with feature thread-safe) and discharged by rustc's trait solver; a type that stops being Send or Sync is a compile error naming the offending field.",
@@ -110,7 +141,7 @@ LEVEL_TEXT = {
 
 _NOT_YET = "not built yet in this session (planned, see DESIGN.md section 4); no check is registered so nothing is claimed"
 NOT_APPLICABLE = {
-    "C01": _NOT_YET, "C02": _NOT_YET, "C05": _NOT_YET, "C06": _NOT_YET,
+    "C05": _NOT_YET, "C06": _NOT_YET,
     "C07": "defined by executing statements on a real SQLite engine and comparing rows/table contents; no contract on sea-query's functions can express an engine's evaluation semantics and neither Verus nor Kani can take SQLite's C code as a callee (DESIGN.md section 6)",
     "C08": _NOT_YET,
     "C09": "equality of query RESULTS of three renderings on executing engines and equivalence of emulations (IS NULL ordering, IFNULL/COALESCE, GREATEST/MAX): engine semantics, outside any contract on this code (DESIGN.md section 6)",
